@@ -460,6 +460,10 @@ func main() {
 		os.Exit(replay(os.Args[2], os.Args[3]))
 	case "selftest":
 		os.Exit(selftest())
+	case "warm":
+		b := doBuild(true)
+		b.cleanup()
+		fmt.Println("build cache warmed (plain and race worker)")
 	case "build":
 		b := doBuild(len(os.Args) > 2 && os.Args[2] == "race")
 		fmt.Println(b.dir)
